@@ -402,7 +402,7 @@ class OutputUpdate(Spec):
     inline = ()
 
     def inputs(self, cx):
-        out = Obj("ladim.out_netcdf.Output", modules=dict(time=Obj(None, step=z3.Int("step"), time=z3.Int("t")), state=Obj(None)), output_period_step=z3.Int("ops"))
+        out = Obj("ladim.out_netcdf.Output", modules=dict(time=Obj(None, step=z3.Int("step"), time=z3.Int("t")), state=Obj(None)), output_period_step=z3.Int("ops"), skip_initial=z3.Bool("skip_initial"))
         out.attrs["_ghost_writes"] = 0
         cx.assume(z3.And(out.attrs["output_period_step"] >= 1, out.attrs["modules"]["time"].attrs["step"] >= 0))
         return Args(self=out)
@@ -424,9 +424,9 @@ class OutputUpdate(Spec):
     def ensures(self, cx, a, result):
         t = a.self.attrs
         step, ops = t["modules"]["time"].attrs["step"], t["output_period_step"]
-        due = step - ops * (step / ops) == 0
+        due = z3.And(step - ops * (step / ops) == 0, z3.Not(z3.And(t["skip_initial"], step == 0)))
         w = t["_ghost_writes"]
-        return [("C07: a record is written iff step is a multiple of the output period in steps", z3.And(z3.Implies(due, w == 1), z3.Implies(z3.Not(due), w == 0)) if False else (z3.If(due, z3.IntVal(1), z3.IntVal(0)) == w))]
+        return [("C07/C08: a record is written iff step is a multiple of the output period in steps (and it is not the skipped initial record)", z3.And(z3.Implies(due, w == 1), z3.Implies(z3.Not(due), w == 0)) if False else (z3.If(due, z3.IntVal(1), z3.IntVal(0)) == w))]
 
 
 class OutputInitRecords(Spec):
@@ -478,7 +478,7 @@ class OutputInitRecords(Spec):
             layout="sparse",
             ncargs=None,
             numrec=z3.Int("numrec") if self.numrec_given else 0,
-            skip_initial=False,
+            skip_initial=z3.Bool("skip_initial"),
             global_attributes=None,
         )
         if self.numrec_given:
@@ -496,10 +496,10 @@ class OutputInitRecords(Spec):
     def ensures(self, cx, a, result):
         t = a.self.attrs
         ops, nsteps = a._ops, a._nsteps
-        ceil = (nsteps + ops - 1) / ops
+        ceil = (nsteps + ops - 1) / ops - z3.If(a.skip_initial, 1, 0)
         out = [
             ("C07: output period in steps == period / dt", V.s_cmp("==", t.get("output_period_step", -1), ops)),
-            ("C07: number of records == number of output times start + k*period in [start, stop) == ceil(Nsteps / period_steps)", V.s_cmp("==", t.get("num_records", -1), ceil)),
+            ("C07/C08: number of records == number of output times start + k*period in [start, stop) == ceil(Nsteps / period_steps), minus the skipped initial one", V.s_cmp("==", t.get("num_records", -1), ceil)),
             ("C07: cursors start at zero", z3.And(*[V.to_z3(V.s_cmp("==", t.get(k, -1), 0)) for k in ("record_count", "instance_count", "local_record_count", "local_instance_count")])),
             ("C10: stored output period is negative exactly when time is reversed", V.s_cmp("==", t.get("output_period", 0), z3.If(a.modules["time"].attrs["time_reversal"], -a.output_period, a.output_period))),
         ]
